@@ -1,5 +1,5 @@
 """C02 -- least-squares optimal placement (KKT oracle inside the solver)."""
-from . import layer
+from . import layer, forceh
 
 PROPERTY = "C02"
 EXPLANATION = (
@@ -26,6 +26,21 @@ ASSUMPTIONS = [
 
 
 def configs(tier):
+    return _layer_configs(tier) + _force_configs(tier)
+
+
+def _force_configs(tier):
+    F = forceh.make_configs
+    if tier == "quick":
+        return F([2, 3]) + F([2], algs=("overlap", "simple"), bounds=((0, 100),), hists=("reconf", "engine2", "stale", "subset"))
+    c = F([1, 2, 3], dens=(0.85, 0.5), stubws=(1, 5), bounds=((0, 100), (None, 100), (0, None), (-30, 45)))
+    c += F([2, 3], bounds=((0, 100), (None, 100)), hists=("twice", "reconf", "renodes", "engine2", "subset", "stale"))
+    c += F([4], bounds=((0, 100),))
+    c += F([2], vpsc="real")  # the real vpsc end to end (no contract stub)
+    return c
+
+
+def _layer_configs(tier):
     if tier == "quick":
         return layer.make_configs([1, 2]) + layer.make_configs([3], kinds="LCS")
     c = layer.make_configs([1, 2, 3])
@@ -35,8 +50,12 @@ def configs(tier):
 
 
 def run(e, cfg):
+    if cfg.get("harness") == "force":
+        return forceh.run(e, cfg, "C02")
     return layer.run(e, cfg, "C02")
 
 
 def replay(cfg, inputs, check, info):
+    if cfg.get("harness") == "force":
+        return forceh.replay(cfg, inputs, check, info, "C02")
     return layer.replay(cfg, inputs, check, info, "C02")
